@@ -146,12 +146,14 @@ pub fn shared_history(ctx : &Ctx, out : &mut Out)
         let other = ["c", "e", "dir0", "dira"];
         let mut targets : Vec<String> = vec![r.pick(&inside).to_string(), r.pick(&between).to_string()];
         for _ in 0..r.range(0, 2) { let t = r.pick(&[inside[0], inside[1], inside[2], between[0], between[1], between[2], other[0], other[1], other[2], other[3]]).to_string(); if !targets.contains(&t) { targets.push(t); } }
-        let mut sources = vec!["s".to_string()];
-        if r.chance(1, 2) { sources.push("s2".to_string()); }
-        let command : Vec<String> = { let mut c = vec![]; for (k, t) in targets.iter().enumerate() { if k > 0 { c.push(";".to_string()); } c.push(format!("gen {} @s ={}", t, t.replace('/', "_"))); } c };
+        // two sources; the first target (inside the directory) reads `s`, the others read `s2`
+        let sources = vec!["s".to_string(), "s2".to_string()];
+        let command : Vec<String> = { let mut c = vec![]; for (k, t) in targets.iter().enumerate() { if k > 0 { c.push(";".to_string()); } c.push(format!("gen {} @{} ={}", t, if k == 0 { "s" } else { "s2" }, t.replace('/', "_"))); } c };
+        // a second rule depends on the target inside the directory
+        let dependent = format!("\ntop\n:\n{}\n:\ngen top =T @{}\n:\n", targets[0], targets[0]);
         let flat = |order : &Vec<String>, srcs : &Vec<String>| -> String
         {
-            format!("{}\n:\n{}\n:\n{}\n:\n", order.join("\n"), srcs.join("\n"), command.join("\n"))
+            format!("{}\n:\n{}\n:\n{}\n:\n{}", order.join("\n"), srcs.join("\n"), command.join("\n"), dependent)
         };
         let bundle = |srcs : &Vec<String>| -> String
         {
@@ -163,7 +165,7 @@ pub fn shared_history(ctx : &Ctx, out : &mut Out)
             lines.push("dir".to_string());
             for k in kids.iter() { lines.push(format!("\t{}", k)); }
             lines.extend(top);
-            format!("{}\n:\n{}\n:\n{}\n:\n", lines.join("\n"), srcs.join("\n"), command.join("\n"))
+            format!("{}\n:\n{}\n:\n{}\n:\n{}", lines.join("\n"), srcs.join("\n"), command.join("\n"), dependent)
         };
         let mut order1 = targets.clone(); r.shuffle(&mut order1);
         let mut order2 = targets.clone(); r.shuffle(&mut order2);
@@ -180,7 +182,21 @@ pub fn shared_history(ctx : &Ctx, out : &mut Out)
         let replay = |ops : &Vec<Op>| { let mut j = Json::obj(); j.set("suite", Json::s("c13_shared")); j.set("ops", Json::Arr(ops.iter().map(|o| Json::s(&o.describe())).collect())); j.set("case", Json::s(&world::show_history_case(false, 1_000_000, ops)));  j };
         user(Op::Write(RULES_PATH.to_string(), texts[first].clone().into_bytes()), &mut ops, &mut obs);
         user(Op::Write("s".to_string(), b"one".to_vec()), &mut ops, &mut obs);
-        if sources.len() > 1 { user(Op::Write("s2".to_string(), b"two".to_vec()), &mut ops, &mut obs); }
+        user(Op::Write("s2".to_string(), b"two".to_vec()), &mut ops, &mut obs);
+        let b0 = invoke(Op::Build(None), &mut ops, &mut obs);
+        // C01 through a multi-target rule: only the source of the target that `top` depends on changes
+        if b0.verdict.is_ok()
+        {
+            user(Op::Write("s".to_string(), b"uno".to_vec()), &mut ops, &mut obs);
+            let b = invoke(Op::Build(if r.chance(1, 2) { Some("top".to_string()) } else { None }), &mut ops, &mut obs);
+            let now = disk_files(&driver.sys.disk());
+            let want_inside : Vec<u8> = { let mut v = b"uno".to_vec(); v.extend_from_slice(targets[0].replace('/', "_").as_bytes()); v };
+            let want_top : Vec<u8> = { let mut v = b"T".to_vec(); v.extend_from_slice(&want_inside); v };
+            if b.verdict.is_ok() && (now.get(&targets[0]) != Some(&want_inside) || now.get("top") != Some(&want_top))
+            {
+                out.violation("C01:stale-target", format!("build reported success but {:?} holds {:?} and \"top\" holds {:?}; from scratch they hold {:?} and {:?}", targets[0], now.get(&targets[0]).map(|c| String::from_utf8_lossy(c).to_string()), now.get("top").map(|c| String::from_utf8_lossy(c).to_string()), String::from_utf8_lossy(&want_inside), String::from_utf8_lossy(&want_top)), replay(&ops));
+            }
+        }
         let b1 = invoke(Op::Build(None), &mut ops, &mut obs);
         out.count(&format!("notations:{}->{}", first, second));
         if !b1.verdict.is_ok() { out.count("first-build-not-ok"); out.case(world::show_history_case(false, 1_000_000, &ops), sexp::list(obs), false); continue; }
